@@ -476,6 +476,8 @@ def compare(eng, st, op, a, b, line):
                 x, y = eng.coerce(a, INT).t, eng.coerce(b, INT).t
         elif ka == 'str' and kb == 'str':
             x, y = a.t, b.t
+        elif st.spec and ka in ('ref', 'opaque', 'int') and kb in ('ref', 'opaque', 'int'):
+            x, y = a.t, b.t          # object identities are ordered by allocation (spec only)
         else:
             yield st, R('TypeError', line)
             return
@@ -634,7 +636,13 @@ def index(eng, st, o, i, line):
             if not ok:
                 yield s1, R('IndexError', line)
                 continue
-            idx = z3.simplify(z3.If(it >= 0, it, it + n))
+            itv = z3.simplify(it)
+            if z3.is_int_value(itv):
+                idx = itv if itv.as_long() >= 0 else z3.simplify(itv + n)
+            elif eng.assume(s1, it < 0) is None:
+                idx = it
+            else:
+                idx = z3.If(it >= 0, it, it + n)
             if k == 'list':
                 yield s1, V(o.ty.args[0], o.t[idx])
             elif k == 'str':
@@ -913,6 +921,7 @@ def listcomp_loop(eng, st, e, xs, spec, ordn):
                    eng.spec_bool(cl.src, s0, env0), props=cl.props, line=e.lineno)
     head = st.copy()
     head.loopw = set()
+    eng.havoc_alloc(head)
     env = dict(head.env)
     for loc in spec.modifies:
         if loc.startswith('ghost.') or '.' in loc:
@@ -973,24 +982,37 @@ def _quant(eng, st, e, q):
     if not isinstance(lam, ast.Lambda):
         raise core.EngineError('forall/exists needs a lambda')
     names = [a.arg for a in lam.args.args]
-    tys = []
-    for a in lam.args.args:
-        tys.append(INT)
     env = dict(st.env)
     env['__parent__'] = st.env
     consts = []
-    for n, ty in zip(names, tys):
+    for n in names:
         c = z3.Int(eng.name('q_' + n))
         consts.append(c)
-        env[n] = V(ty, c)
-    body = truth(eng.spec(lam.body, st, env, modname=eng.modname(st)))
+        env[n] = V(INT, c)
     rng = []
     if len(e.args) >= 3:
         lo = eng.spec(e.args[1], st, dict(st.env), modname=eng.modname(st))
         hi = eng.spec(e.args[2], st, dict(st.env), modname=eng.modname(st))
         rng = [consts[0] >= lo.t, consts[0] < hi.t]
+    s2 = eng.assume(st, z3.And(*rng)) if rng else st.copy()
+    if s2 is None:
+        yield st, vbool(q == 'forall')       # empty range
+        return
+    saved = eng.undef
+    eng.undef = []
+    eng.bound_depth += 1
+    try:
+        body = truth(eng.spec(lam.body, s2, env, modname=eng.modname(st)))
+        und = eng.undef
+    finally:
+        eng.undef = saved
+        eng.bound_depth -= 1
+    if und:
+        # definedness of the body is part of the quantified statement
+        body = z3.And(z3.Not(z3.Or(*und)), body)
     if q == 'forall':
         t = z3.ForAll(consts, z3.Implies(z3.And(*rng), body) if rng else body)
+        eng.quants[t.get_id()] = (t, consts, rng, body)
     else:
         t = z3.Exists(consts, z3.And(*(rng + [body])))
     yield st, vbool(t)
@@ -1029,7 +1051,11 @@ def sp_typeis(eng, st, e):
     yield st, vbool(isinstance_term(eng, v, name))
 
 
-SPECIAL = {'old': sp_old, 'forall': sp_forall, 'exists': sp_exists, 'implies': sp_implies,
+def sp_alloc_now(eng, st, e):
+    yield st, st.ghost['$alloc']
+
+
+SPECIAL = {'alloc_now': sp_alloc_now, 'old': sp_old, 'forall': sp_forall, 'exists': sp_exists, 'implies': sp_implies,
            'typeis': sp_typeis}
 
 
@@ -1612,18 +1638,21 @@ def _json_dumps(eng, st, args, kwargs, line):
     yield st, vstr(r)
 
 
+qs_dom = z3.Function('qs_dom', S, z3.ArraySort(S, B))
+qs_map = z3.Function('qs_map', S, z3.ArraySort(S, SeqS))
+
+
 @lib('urllib.parse.parse_qs')
 def _parse_qs(eng, st, args, kwargs, line):
+    """parse_qs(q): a function of q returning a dict[str, non-empty list[str]] (assumed)."""
     v, = args
     ty = Dict(STR, List(STR))
-    r = eng.fresh(ty, 'qs', st)
-    # assumed: values are non-empty lists (instantiated at each lookup through `qs_nonempty`)
+    dom, mp = qs_dom(v.t), qs_map(v.t)
     k = z3.String(eng.name('k!qs'))
-    eng.fact(st, z3.ForAll([k], z3.Implies(z3.Select(r.t[0], k),
-                                           z3.Length(z3.Select(r.t[1], k)) >= 1),
-                           patterns=[z3.Select(r.t[1], k)]))
-    st.notes = st.notes + (('parse_qs', v.t, r),)
-    yield st, r
+    eng.fact(st, z3.ForAll([k], z3.Implies(z3.Select(dom, k), z3.Length(z3.Select(mp, k)) >= 1),
+                           patterns=[z3.Select(mp, k)]))
+    eng.fact(st, card(dom) >= 0)
+    yield st, V(ty, (dom, mp))
 
 
 @lib('time.time')
